@@ -274,10 +274,22 @@ bus0_sock_send(void *arg, nni_aio *aio)
 
 	msg = nni_aio_get_msg(aio);
 	len = nni_msg_len(msg);
-	nni_aio_set_msg(aio, NULL);
 
-	// this test is so that we detect when the aio itself is terminated,
-	// otherwise we could loop forever.
+	nni_mtx_lock(&s->mtx);
+
+	// BUS send never blocks, so no timeout - not even a zero one, as used
+	// for non-blocking sends - can apply to it.  We start the aio only
+	// to honor an aio that was stopped or aborted; the send then fails
+	// and the message stays with the aio, untouched.
+	tmo = nni_aio_get_timeout(aio);
+	nni_aio_set_timeout(aio, NNG_DURATION_INFINITE);
+	started = nni_aio_start(aio, NULL, NULL);
+	nni_aio_set_timeout(aio, tmo);
+	if (!started) {
+		nni_mtx_unlock(&s->mtx);
+		return;
+	}
+	nni_aio_set_msg(aio, NULL);
 
 	if (s->raw) {
 		// In raw mode, we look for the message header, to see if it
@@ -289,20 +301,6 @@ bus0_sock_send(void *arg, nni_aio *aio)
 	} else {
 		// In cooked mode just strip the header.
 		nni_msg_header_clear(msg);
-	}
-
-	nni_mtx_lock(&s->mtx);
-
-	// BUS send never blocks, so no timeout - not even a zero one, as used
-	// for non-blocking sends - can apply to it.  We start the aio only
-	// to honor an aio that was stopped or aborted.
-	tmo = nni_aio_get_timeout(aio);
-	nni_aio_set_timeout(aio, NNG_DURATION_INFINITE);
-	started = nni_aio_start(aio, NULL, NULL);
-	nni_aio_set_timeout(aio, tmo);
-	if (!started) {
-		nni_mtx_unlock(&s->mtx);
-		return;
 	}
 
 	NNI_LIST_FOREACH (&s->pipes, pipe) {
